@@ -18,6 +18,28 @@ CHECKS = {
              "versioned sorted-map model; a shadow reader thread checks reads while compactions run. Held = no "
              "divergence on the histories/configurations explored (counts in evidence); sampling, not proof.",
         note="Trusts harness/model.c as the sorted-map specification; background scheduling is whatever the OS gives."),
+    "C02": dict(
+        cat="fault_enumeration", engine="crashmon", design="3/C02",
+        technique="runtime monitoring: recorded libc I/O trace -> enumerated crash images -> real recovery, oracle over surviving batch markers",
+        text="A write workload runs on the real library under the I/O interposer; for every state-changing event of the "
+             "trace and every image kind the crash model allows (max, min, dir-ahead, data-ahead, torn cuts, random) the "
+             "image is materialised and the real ldb_open recovers it; every sync-acknowledged batch and every batch whose "
+             "log was unlinked must be present. Exhaustive over event boundaries of each recorded trace, sampled over traces.",
+        note="Crash model exactly as stated in C02; single foreground writer; tmpfs holds the images."),
+    "C03": dict(
+        cat="fault_enumeration", engine="crashmon", design="3/C03",
+        technique="runtime monitoring: byte-exact kill images at every syscall boundary, nested and chained, recovered by the real code",
+        text="At every state-changing event the byte-exact image is recovered by the real code: the surviving set must be "
+             "exactly the acknowledged batches (plus possibly the one in flight) and the contents their fold; sampled kill "
+             "points are nested (kill inside recovery) or chained (recover, write more, kill again, 2-3 links).",
+        note="Kill points are system-call boundaries of the recorded trace; background/foreground interleaving as recorded."),
+    "C05": dict(
+        cat="fault_enumeration", engine="crashmon", design="3/C05",
+        technique="runtime monitoring: real recovery of every enumerated crash image + second open + follow-up workload + nested crashes",
+        text="Every crash image (all kinds) must open without error under independently drawn paranoid_checks/reuse_logs; "
+             "recovered batches form a prefix of every log segment, scan == fold, a second open changes nothing, no "
+             "orphans remain, and a follow-up workload persists across a further reopen.",
+        note="Same crash model as C02; follow-up on a 1-in-3 sample of images plus all non-write crash points."),
     "C06": dict(
         cat="exploration", engine="histmon", design="3/C06",
         technique="runtime monitoring: frozen-model oracle per snapshot, re-validated after every structural change",
